@@ -78,7 +78,8 @@ RULE = ("random archives with dyadic objectives / measures: GridArchive 2-D (dim
         "'one' (exactly one elite), 'sparse' (empty cells), 'full', 'equal' (all objectives equal: degenerate colour "
         "range), 'replaced' (grid / CVT strata: CMA-MAE archive with learning_rate < 1 and a finite threshold_min, "
         "filled one add call at a time by a history in which elites - the best one included - are replaced by LOWER "
-        "objectives, so that archive.stats.obj_max is stale; always plotted with default limits too), an entirely "
+        "objectives, so that archive.stats.obj_max is stale; always plotted with default limits too), in half of "
+        "the coarse-scale cases one stored objective is exactly 0.0 (or -0.0), an entirely "
         "empty archive only with explicit limits; objective scales cycled over every plot kind: multiples of 1/4 in "
         "[-8, 8], and values NEARLY TIED RELATIVE TO THEIR MAGNITUDE but exactly representable (also in float32): "
         "1024 + k/512, -262144 + k, 4096 + k/256 with small k, together with explicit (vmin, vmax) pairs that close "
@@ -244,6 +245,15 @@ def gen_obj(rng, sc):
     if sc["name"] == "coarse":
         return dy(rng, -8, 8, 4)
     return sc["base"] + rng.randint(0, sc["K"]) * sc["step"]
+
+
+def zero_obj(rng, sc, ops):
+    """on the coarse scale half of the cases store an objective that is exactly 0.0 (the optimum of the negative
+    sphere function of the tutorials): a stored 0.0 is an elite like any other, not a missing value."""
+    if sc["name"] == "coarse" and ops and rng.random() < 0.5:
+        ops[rng.randrange(len(ops))]["o"] = 0.0
+        if rng.random() < 0.3:
+            ops[rng.randrange(len(ops))]["o"] = -0.0
 
 
 def lower_obj(rng, sc, o):
@@ -630,6 +640,8 @@ def gen_grid(rng, one_d, pattern=None, scale=None):
         chosen = cells[:rng.randint(1, max(1, len(cells) - 1))]
     same = gen_obj(rng, sc)
     ops = [{"cell": c, "o": same if pattern == "equal" else gen_obj(rng, sc)} for c in chosen]
+    if pattern != "equal":
+        zero_obj(rng, sc, ops)
     if pattern in ("sparse", "full") and rng.random() < 0.4:
         for c in rng.sample(chosen, min(len(chosen), 3)):
             ops.append({"cell": c, "o": gen_obj(rng, sc)})  # competition for a cell
@@ -783,6 +795,8 @@ def gen_cvt1(rng, pattern=None, scale=None):
     chosen = {"one": idx[:1], "full": idx, "empty": []}.get(pattern, idx[:rng.randint(1, max(1, n - 1))])
     same = gen_obj(rng, sc)
     ops = [{"c": c, "o": same if pattern == "equal" else gen_obj(rng, sc)} for c in chosen]
+    if pattern != "equal":
+        zero_obj(rng, sc, ops)
     cma = replaced_history(rng, sc, ops, "c") if pattern == "replaced" else None
     plots = [gen_variant(rng, sc, tr=False, plot_centroids=rng.random() < 0.2)]
     if rng.random() < 0.5:
@@ -874,6 +888,8 @@ def gen_cvt2(rng, pattern=None, scale=None):
     chosen = {"one": idx[:1], "full": idx, "empty": []}.get(pattern, idx[:rng.randint(1, max(1, n - 1))])
     same = gen_obj(rng, sc)
     ops = [{"c": c, "o": same if pattern == "equal" else gen_obj(rng, sc)} for c in chosen]
+    if pattern != "equal":
+        zero_obj(rng, sc, ops)
     cma = replaced_history(rng, sc, ops, "c") if pattern == "replaced" else None
     plots = []
     for tr in (False, True):
@@ -1014,6 +1030,7 @@ def gen_sliding(rng, pattern=None, scale=None):
     pattern = pattern or rng.choice(POINT_PATTERNS)
     n = {"one": 1, "few": rng.randint(2, 4)}.get(pattern, rng.randint(5, 30))
     ops = gen_points(rng, sc, lows, widths, n, spill=rng.random() < 0.2)
+    zero_obj(rng, sc, ops)
     if pattern == "equal":
         for op in ops:
             op["o"] = ops[0]["o"]
@@ -1118,6 +1135,7 @@ def gen_prox(rng, pattern=None, scale=None):
     pattern = pattern or rng.choice(POINT_PATTERNS)
     n = {"one": 1, "few": rng.randint(2, 4)}.get(pattern, rng.randint(5, 25))
     ops = gen_points(rng, sc, lows, widths, n, spill=False)
+    zero_obj(rng, sc, ops)
     if pattern == "equal":
         for op in ops:
             op["o"] = ops[0]["o"]
@@ -1240,6 +1258,7 @@ def gen_parallel(rng, pattern=None, scale=None):
                 pts.append(m)
         rng.shuffle(pts)
         ops = [{"m": m, "o": gen_obj(rng, sc)} for m in pts]
+    zero_obj(rng, sc, ops)
     if pattern == "equal":
         for op in ops:
             op["o"] = ops[0]["o"]
@@ -1430,6 +1449,8 @@ def run_case(case):
         return None  # these are never generated empty (the shrinker may ask)
     stat(f"content:{case['kind']}:{case.get('pattern')}")
     stat(f"objectives:{(case.get('oscale') or {}).get('name', 'coarse')}")
+    if any(op.get("o") == 0.0 for op in case["ops"]):
+        stat(f"objectives:{case['kind']}:a stored objective is exactly 0.0")
     if case.get("arch"):
         stat(f"content:{case['kind']}:archive={case['arch']}")
     try:
